@@ -174,6 +174,9 @@ def correspondence(ctx: core.Ctx) -> None:
         allp = pvpv + ctx.rng.sample(allp, 300)
     for k in range(0, len(allp), 1500):
         check_markers(ctx, allp[k:k + 1500], "python-pairs")
+    lc = [(m, "sys_platform" not in m) for m in G.python_list_conjunctions(ctx.rng, None if ctx.thorough else 300)]
+    for k in range(0, len(lc), 1500):
+        check_markers(ctx, lc[k:k + 1500], "list-clauses")
     ms = gen_markers(ctx, ctx.budget(400, 15000))
     for k in range(0, len(ms), 1500):
         check_markers(ctx, ms[k:k + 1500], "gen-markers")
